@@ -76,7 +76,7 @@ def _alarm(signum, frame):
     raise _Watchdog()
 
 
-def exec_case(prop, case, wall_cap=120.0):
+def exec_case(prop, case, wall_cap=400.0):
     """Run one case under a wall-clock watchdog; returns the result dict (never raises)."""
     eng = load_engine(prop)
     old = signal.signal(signal.SIGALRM, _alarm)
@@ -187,6 +187,7 @@ def main(argv=None):
     ap.add_argument("--wall", type=float, default=None, help="wall-clock cap for the batch in seconds")
     ap.add_argument("--no-shrink", action="store_true")
     ap.add_argument("--no-evidence", action="store_true")
+    ap.add_argument("--digests", default=None, help="write {run index: event-log digest} to this JSON file (determinism self-test)")
     a = ap.parse_args(argv)
 
     prop = a.prop
@@ -288,6 +289,9 @@ def main(argv=None):
             if key not in first_by_key:
                 first_by_key[key] = (idx, v)
 
+    if a.digests:
+        with open(a.digests, "w") as f:
+            json.dump({str(i): (results[i].get("digest") or "HARNESS-ERROR") + "|" + ",".join(sorted(kernel.viol_key(v) for v in results[i].get("violations", []))) for i in sorted(results)}, f)
     rc = 0
     out_lines = []
     for kid, (k, cnt) in sorted(known_seen.items()):
